@@ -397,7 +397,7 @@ func fairPick(r *run, pf []string, before, after *scheduler.VerifState, pq, sc i
 	var completedPaths [][]int
 	lastKeys := []int{}
 	starts := make([]int64, len(qb.StickinessLimits))
-	completion := false
+	completion, forced := false, false
 	if wb != nil {
 		lastKeys = c.path(wb.LastInvocationKeys)
 		for i, t := range wb.StickinessStartingTimes {
@@ -410,24 +410,36 @@ func fairPick(r *run, pf []string, before, after *scheduler.VerifState, pq, sc i
 			// sync <now> <pq> <sc> <comps> <plat> <h.t> <report> <preferIdle>
 			byWorker := len(pf) >= 8 && pf[0] == "sync" && atoi(pf[2]) == pq && atoi(pf[3]) == sc && pf[6] == ht &&
 				strings.HasPrefix(pf[7], "c:") && tb != nil && strings.Split(pf[7], ":")[1] == strconv.Itoa(w.digests[tb.ActionDigestHash])
-			if !byWorker {
-				if wb.CurrentTaskOperation == wa.CurrentTaskOperation {
-					fairCount["exec-is-resend-of-current-task"]++
-				} else {
-					fairCount["pick-skipped-forced-completion"]++
-				}
+			if !byWorker && wb.CurrentTaskOperation == wa.CurrentTaskOperation {
+				fairCount["exec-is-resend-of-current-task"]++
 				return
 			}
+			if tb == nil {
+				fairCount["pick-skipped-no-before-state"]++
+				return
+			}
+			forced = !byWorker
 			completion = true
 			var ps [][]int
 			for _, o := range tb.Operations {
 				ps = append(ps, c.path(o.InvocationKeys))
 			}
 			completedPaths = ps
-			// worker.lastInvocation = lowest common ancestor of the task's invocations
-			lastKeys = append([]int{}, ps[0]...)
-			for _, p := range ps[1:] {
-				lastKeys = lastKeys[:commonPrefixLen(lastKeys, p)]
+			if forced {
+				// getCurrentOrNextTask gave up on the task (retry count exhausted, or the worker reported
+				// something else): task.complete(..., completedByWorker = false) associates the worker
+				// with the root invocation again
+				lastKeys = []int{}
+				if ta2 := findTaskByOp(after, wb.CurrentTaskOperation); ta2 != nil && ta2.Stage != 4 {
+					fairCount["pick-skipped-forced-completion-unclear"]++
+					return
+				}
+			} else {
+				// worker.lastInvocation = lowest common ancestor of the task's invocations
+				lastKeys = append([]int{}, ps[0]...)
+				for _, p := range ps[1:] {
+					lastKeys = lastKeys[:commonPrefixLen(lastKeys, p)]
+				}
 			}
 		}
 	}
@@ -523,8 +535,11 @@ func fairPick(r *run, pf []string, before, after *scheduler.VerifState, pq, sc i
 		fmt.Fprintf(os.Stderr, "FAIR %s\n  -> %s\n  starts before %v after %v\n  primary %v completion=%v wb=%+v\n  wa=%+v\n", req, out, starts, wa.StickinessStartingTimes, pf, completion, wb, wa)
 	}
 	fairCount["pick-checked"]++
-	if completion {
+	if completion && !forced {
 		fairCount["pick-checked-after-completion"]++
+	}
+	if forced {
+		fairCount["pick-checked-after-forced-completion"]++
 	}
 	if kv["multi"] == "1" {
 		fairCount["pick-checked-with-two-or-more-candidates"]++
